@@ -147,6 +147,34 @@ CHECKS = {
              'positions only at rebalances >= entry and from the first such rebalance on.',
         note='Order of the dynamic universe list not compared.',
         design='5/C19'),
+    'C07': dict(
+        technique='exhaustive (configuration x cut day x future rewrite) enumeration of pairs of complete real sessions, bit-for-bit prefix comparison',
+        text='For every market (incl. an asset whose data start later and a market with missing cells) and every configuration of the '
+             'product alpha {fixed, single-signal, momentum top-1, SMA trend, inverse volatility via real signals} x universe {static, '
+             'dynamic} x 5 rebalance kinds x sizing x fee x burn-in, the real session is run on the full data and on every rewritten '
+             'world (every cut day of the window incl. weekend days x future rows removed / x3 / x0.25 / blanked / constant / '
+             'reversed); fills, history, equity and allocations dated <= T must be bit-identical and failures <= T identical.',
+        note='Differential oracle, no expected values; comparison only between two runs of the same code in one interpreter. Quick thins '
+             'the configuration product to one third (every value of every dimension kept); thorough is the full product.',
+        design='5/C07'),
+    'C09': dict(
+        technique='explicit-state BFS over rebalance rounds on the real construction model, sizer and broker',
+        text='One event = universe subset x alpha weight dictionary (subset / superset / disjoint from holdings, zero weights, an asset in '
+             'no universe) x price table; a round constructs orders at a close, fills them at the next open; orders must equal target '
+             'minus held for exactly universe U held U alpha keys (ascending, no zero, no duplicate), the recorded allocation row must '
+             'cover that set, and holdings after the fills must equal the target. 4 initial holdings, full 4200-event menu in round 1, '
+             'reduced menu in later rounds, both sizers.',
+        note='The sizer is trusted as a function (decided by C10/C11). Stub universe/alpha/data handler.',
+        design='5/C09'),
+    'C18': dict(
+        technique='stateless choice-sequence (deviation-bounded) exploration of set-iteration order and order-id rank + hash-seed subprocesses + shared-source histories',
+        text='(1) ChoiceSet is injected as set/frozenset into all qstrader modules and uuid4 is replaced by a rank-choosing seam; every '
+             'execution with <= 2 deviations (quick: 1 for configurations with > 8 choice points) must give one digest per '
+             'configuration; (2) fresh interpreters under hash seeds realising all 6 orders of the witness set, plus random; (3) all '
+             'ordered pairs of configurations back to back on the same memoised data source, repeats, and a burst of unrelated queries.',
+        note='Set literals/comprehensions cannot be intercepted in-process (covered by the hash-seed runs only). Digest = fills without '
+             'order ids, equity curve, target allocations with key order.',
+        design='5/C18'),
 }
 
 NOT_YET = 'check not built yet (work in progress, see DESIGN.md section 5)'
